@@ -51,6 +51,24 @@ claim("C03", "S2",
       "disposable containers (C26). Single thread / virtual time as the property states.",
       "ast ownership analysis + guard dominance (invoke guard) + producer poll-flag def-use")
 
+claim("C04", "S3",
+      "Structural decision by staging/escape analysis over every function scope of every operator and source factory "
+      "(~450 scopes, ~900 bindings): nothing allocated when the observable or the operator application is built "
+      "(L0/L1) is mutated, and no one-shot iterator allocated there is advanced, by code that runs per subscription "
+      "(>= L2), including through callee parameters (interprocedural consumed-per-subscription summaries). This is "
+      "exactly the mechanism by which re-subscription could differ, decided for all operators at once.",
+      "State inside user callbacks / user iterables is outside the statement; multicast/hot operators are exempt by "
+      "the property (frozen table with reasons); infinite generators whose values are discarded are stateless.",
+      "ast staging / escape analysis with interprocedural parameter-consumption summaries")
+
+claim("C44", "S3",
+      "Structural decision at the factory/application boundary for all operator factories: no L0 binding is mutated or "
+      "consumed at >= L1, no Subject/connectable/disposable container is constructed at L0, curry_flip keeps no state "
+      "between the two calls (so @curry_flip operators are per-application by construction).",
+      "User-supplied stateful arguments (a subject handed to ops.multicast) are the user's. Trusted: stage model of "
+      "operator shapes (factory / application / subscribe / handlers).",
+      "ast staging analysis at the L0/L1 boundary + statelessness of curry_flip")
+
 na("C15", "arithmetic over run-time timestamps (queue ordering by timestamp + duetime, 'exactly d later'); no structural "
           "clause that is both necessary and robust beyond ownership/guarding/falsy rules already decided under "
           "C02/C03/C08/C09, whose scope includes these files")
